@@ -24,7 +24,8 @@ func init() {
 		Level: "exploration",
 		Rule: "case = generated valid emission configuration x supply (1..10^30 extra coins) x probe instant t (ms-aligned, inside a step of a chosen period; first and later steps, near period ends, before start) x ms-aligned dt inside the same step. " +
 			"Real app: BeginBlock(t), Inflation query + bank supply, BeginBlock(t+dt); oracle |minted - I*S*dt/year| <= rigorous slack (big.Rat), zero-inflation checks before start / NoMinting / ended period (incl. a current period whose end an accepted governance update moved into the past). " +
-			"Non-trivial: minted>10 in the probe interval, or a zero-inflation state actually reached. Distinct by (configuration, t, dt, supply).",
+			"Non-trivial: minted>10 in the probe interval, or a zero-inflation state actually reached. Distinct by (configuration, t, dt, supply)." +
+			" Every 16th case is the long-horizon probe (see C02): reported inflation vs the emission of a following short interval centuries after the start; a sixth of the cases park part of the supply on the minter's own module account.",
 		Assumptions: []string{
 			"slack = 1 + X*(2ms/period_len) + (S+1)*dt/year*2e-18 + 1e-9*dt/step where X=I*S*dt/year (difference of two floors; ms truncation of linear period ends; 18-decimal truncation of I and of chained multiplier products)",
 			"year = 365 days as in the code's annualisation constant",
